@@ -986,6 +986,9 @@ func init() {
 				g := prng.New(verdict.Seed(), "c08race."+w.Name, it)
 				world := w.Sc.Build()
 				world.RealLock = true
+				// every other iteration the application hands out one
+				// long-lived 'other' callback slice instead of a fresh one
+				world.SharedOther = it%2 == 1
 				var jm sync.Mutex
 				world.Jitter = func() {
 					jm.Lock()
